@@ -470,4 +470,4 @@ pub(crate) enum ScopeVarLvaluePath {
 // verification hooks (glass_easel_verif): compiled only under the cfg guard
 #[cfg(any(kani, glass_easel_verif))]
 #[path = "/verif/hooks/tc_proc_gen.rs"]
-mod verif;
+pub mod verif;
